@@ -47,6 +47,10 @@ func accelFamilies(thorough bool) (jobs []job) {
 	add("BUMP", bump, "G", profP0, 4)
 	add("BUMP", bump, "m", profP6, 4)
 	add("ALTREP", altRepFamily(), "", profP0, 4)
+	altSet := altSetFamily()
+	add("ALTSET", altSet, "G", profP0, 3)
+	add("ALTSET", altSet, "", profP0, 3)
+	add("ALTSET", altSet, "iG", profP0i, 3)
 	add("LOOPALT", loopAltFamily(), "", profP0, 5)
 	add("LOOP3", loop3Family(false), "", profP0, 5)
 	for _, o := range []optSet{"", "G", "R"} {
